@@ -301,6 +301,14 @@ class Ctx:
     def log(self, *a):
         print('[%s %6.1fs]' % (self.pid, time.time() - self.t0), *a, flush=True)
 
+    def _phase(self, name, t_b):
+        dt = time.time() - t_b
+        ph = self.extra.setdefault('phases', {})
+        key = name.split(' (')[0]
+        ph[key] = round(ph.get(key, 0.0) + dt, 1)
+        if dt >= 2.0:
+            self.log('%-40s %6.1fs' % (name, dt))
+
     def n(self, quick, thorough):
         return quick if self.quick else thorough
 
@@ -420,7 +428,10 @@ class Ctx:
             res['log'] = res['failing']
             return res
         deps = [c[:-2] + '.vo' for c in cone if c != props_rel]
+        t_b = time.time()
         ok, failing, log = self.coq_build(deps)
+        self._phase('coq cone build', t_b)
+        t_b = time.time()
         if not ok:
             res['failing'] = failing
             res['log'] = log
@@ -432,6 +443,7 @@ class Ctx:
             cmd = 'timeout %d coqc -q -R . DV %s' % (COQ_TIMEOUT, props_rel)
             rc, out = sh(cmd, cwd=COQ)
         self.cov['checker_cmd'] += ' && ' + cmd
+        self._phase('coq props ' + props_rel, t_b)
         res['log'] = out[-6000:]
         if rc != 0:
             res['failing'] = props_rel
@@ -482,6 +494,7 @@ class Ctx:
         ["DV.Model.Frame"].'''
         if not exprs:
             return []
+        t_b = time.time()
         head = ''.join('Require Import %s.\n' % r for r in requires)
         head += (
             'Require Import ZArith List String. Import ListNotations.\n'
@@ -538,6 +551,7 @@ class Ctx:
                 d, 'expected %d results, got %d' % (len(exprs), len(results))
             )
         shutil.rmtree(d, ignore_errors=True)
+        self._phase('coq eval (%d exprs)' % len(exprs), t_b)
         return results
 
     # -- implementation side -------------------------------------------------
@@ -545,6 +559,7 @@ class Ctx:
         '''Run tools/harness/<script> under /venv/bin/python against
         /repo/Python.  payload (JSON-able) is written to a file whose path is
         argv[1]; the driver writes JSON to argv[2].'''
+        t_b = time.time()
         fin = os.path.join(self.work, 'in_%d.json' % time.time_ns())
         fout = fin.replace('in_', 'out_')
         json.dump(payload, open(fin, 'w'))
@@ -569,6 +584,7 @@ class Ctx:
         res = json.load(open(fout))
         os.unlink(fin)
         os.unlink(fout)
+        self._phase('harness ' + script, t_b)
         return res
 
     # -- verdicts ------------------------------------------------------------
